@@ -3685,8 +3685,12 @@ fn create_joined_batch(
             .iter()
             .map(|col| {
                 if dict_encode && col.data_type() == &arrow::datatypes::DataType::Utf8 {
-                    let keys: arrow::array::Int32Array =
-                        take_arr.iter().map(|v| v.map(|u| u as i32)).collect();
+                    let keys: arrow::array::Int32Array = take_arr
+                        .iter()
+                        // a key pointing at a NULL build value is itself NULL: consumers
+                        // test `is_null(row)` on the dictionary, which only sees key validity
+                        .map(|v| v.filter(|&u| col.is_valid(u as usize)).map(|u| u as i32))
+                        .collect();
                     arrow::array::DictionaryArray::try_new(keys, col.clone())
                         .map(|d| std::sync::Arc::new(d) as ArrayRef)
                         .map_err(Into::into)
@@ -3812,8 +3816,12 @@ fn create_joined_batch_u32(
             .iter()
             .map(|col| {
                 if dict_encode && col.data_type() == &arrow::datatypes::DataType::Utf8 {
-                    let keys: arrow::array::Int32Array =
-                        take_arr.iter().map(|v| v.map(|u| u as i32)).collect();
+                    let keys: arrow::array::Int32Array = take_arr
+                        .iter()
+                        // a key pointing at a NULL build value is itself NULL: consumers
+                        // test `is_null(row)` on the dictionary, which only sees key validity
+                        .map(|v| v.filter(|&u| col.is_valid(u as usize)).map(|u| u as i32))
+                        .collect();
                     arrow::array::DictionaryArray::try_new(keys, col.clone())
                         .map(|d| std::sync::Arc::new(d) as ArrayRef)
                         .map_err(Into::into)
@@ -3947,8 +3955,12 @@ fn create_build_only_batch(
             .iter()
             .map(|col| {
                 if dict_encode && col.data_type() == &arrow::datatypes::DataType::Utf8 {
-                    let keys: arrow::array::Int32Array =
-                        take_arr.iter().map(|v| v.map(|u| u as i32)).collect();
+                    let keys: arrow::array::Int32Array = take_arr
+                        .iter()
+                        // a key pointing at a NULL build value is itself NULL: consumers
+                        // test `is_null(row)` on the dictionary, which only sees key validity
+                        .map(|v| v.filter(|&u| col.is_valid(u as usize)).map(|u| u as i32))
+                        .collect();
                     arrow::array::DictionaryArray::try_new(keys, col.clone())
                         .map(|d| std::sync::Arc::new(d) as ArrayRef)
                         .map_err(Into::into)
